@@ -122,8 +122,19 @@ impl Exec {
         let mut now = sc.cfg.genesis_ts + 1000;
         // blocks carry timestamps chosen by the generator; the node's clock follows the latest
         // delivered block (clock faults move it explicitly)
-        for b in &w.blocks {
-            now = now.max(b.view.timestamp());
+        if sc.header_stage {
+            // blocks stamped relative to the node's clock do not move it
+            now = now.max(w.max_ts);
+        } else {
+            for b in &w.blocks {
+                now = now.max(b.view.timestamp());
+            }
+        }
+        // Clock operations of earlier segments
+        for op in sc.ops.iter().take(from) {
+            if let Op::Clock { ms } = op {
+                now += ms;
+            }
         }
         ft.set_faketime(now);
         let store_cfg = if sc.store_caches.is_some() || sc.freezer {
@@ -645,6 +656,13 @@ impl Exec {
                     return;
                 }
                 let v = self.w.blocks[*b].view.clone();
+                if self.sc.header_stage {
+                    self.tick();
+                    if !self.header_stage(*b, &v) {
+                        self.eff_ops.pop();
+                        return;
+                    }
+                }
                 if !self.delivered_set.insert(*b) {
                     self.res.faults.inc("duplicate_delivery");
                 } else {
@@ -803,6 +821,64 @@ impl Exec {
                 self.check_filters("after_filter_build");
             }
             Op::Restart | Op::Crash { .. } => unreachable!(),
+        }
+    }
+
+    /// C03: the header stage of the pipeline, as `submit_block` runs it. Returns whether the block
+    /// goes on to the chain service. The oracle is the model's reading of the header rules at the
+    /// node's current clock.
+    fn header_stage(&mut self, b: usize, v: &ckb_types::core::BlockView) -> bool {
+        use ckb_verification_traits::Verifier;
+        let shared = self.node.shared.clone();
+        let snap = shared.snapshot();
+        let header = v.header();
+        let verdict = ckb_verification::HeaderVerifier::new(snap.as_ref(), shared.consensus()).verify(&header).map_err(|e| e.to_string());
+        let parent_stored = snap.get_block_header(&v.parent_hash()).is_some();
+        let model = self.w.header_verdict(b, self.now);
+        self.il.write_u64(0x4800 + verdict.is_ok() as u64);
+        match verdict {
+            Err(e) => {
+                self.ev(&format!("header stage refuses {} : {}", b, e));
+                if e.contains("UnknownParent") {
+                    if parent_stored {
+                        self.viol("C03", "header_stage_unknown_parent_but_stored", format!("block #{b}: {e}"));
+                    }
+                    self.res.probes.inc("header_stage_parent_not_stored");
+                    return false;
+                }
+                match model {
+                    Ok(()) => {
+                        self.viol("C03", "header_stage_refuses_valid_header", format!("block #{b} (n={}) meets every header rule at clock {} but was refused: {e}", self.w.blocks[b].number, self.now));
+                    }
+                    Err(kind) => {
+                        self.res.probes.inc(&format!("header_stage_refused:{kind}"));
+                        self.res.nontrivial = true;
+                    }
+                }
+                false
+            }
+            Ok(()) => {
+                if let Err(kind) = model {
+                    if matches!(kind, "pow" | "number" | "ts_too_old" | "ts_too_new") {
+                        self.viol("C03", &format!("header_stage_accepts_invalid_header:{kind}"), format!("block #{b} (n={}) breaks the header rule `{kind}` at clock {} but passed the header check", self.w.blocks[b].number, self.now));
+                        return false;
+                    }
+                    self.res.probes.inc(&format!("header_stage_left_to_chain:{kind}"));
+                }
+                if !parent_stored {
+                    self.res.probes.inc("header_stage_parent_not_stored");
+                    return false;
+                }
+                match self.w.blocks[b].view.timestamp() {
+                    t if t == self.now + crate::model::ALLOWED_FUTURE_MS => self.res.probes.inc("header_at_future_bound_accepted"),
+                    _ => {}
+                }
+                if self.w.blocks[b].parent.map(|p| self.w.blocks[b].view.timestamp() == self.w.median_time(&self.w.chain_of(p)) + 1).unwrap_or(false) {
+                    self.res.probes.inc("header_at_median_plus_one_accepted");
+                }
+                self.res.probes.inc("header_stage_passed");
+                true
+            }
         }
     }
 
@@ -969,6 +1045,10 @@ impl Exec {
                 }
             }
             self.res.probes.inc("membership_proofs_checked");
+        }
+        // the REAL light-client protocol handler, driven with seeded requests (lc.rs)
+        if let Some((class, d)) = crate::lc::check_light_client(&shared, &self.w, r.next_u64(), &mut self.res.probes) {
+            self.viol("C19", &class, format!("{why}: {d}"));
         }
     }
 
